@@ -295,6 +295,45 @@ theorem ratFloor_isFloor : IsFloor R.fl := by
 
 end unwrap
 
+/-! ### the specifications as one-pass recursions
+
+The closed forms of `ALV.Spec.C20` recompute a window / prefix sum / latest-sample search at every
+output position (quadratic).  Each has a one-pass recursion next to it (`…SpecRec`); they are the
+same functions, for all inputs — the driver evaluates the recursion on long inputs. -/
+section recursions
+variable {K : Type} [Field K]
+
+/-- **C20.8a** moving average: the window recursion is the closed form (every size ≥ 1). -/
+theorem mavgSpecRec_eq_spec (size : Nat) (hs : 0 < size) (zero : K) (xs : List K) :
+    mavgSpecRec size zero xs = mavgSpec size zero xs :=
+  (mavgSpec_eq_from size hs zero xs).symm
+
+/-- **C20.8b** running sums: the recursion over the sum so far is the closed form. -/
+theorem accSpecRec_eq_spec (xs : List K) : accSpecRec xs = accSpec xs := accSpecRec_eq xs
+
+variable [LinearOrder K] [IsStrictOrderedRing K]
+
+omit [IsStrictOrderedRing K] in
+/-- **C20.8c** amdf: moving average of `|x[n] − x[n−lag]|`, the average evaluated in one pass. -/
+theorem amdfSpecRec_eq_spec (lag size : Nat) (hs : 0 < size) (zero : K) (xs : List K) :
+    amdfSpecRec lag size zero xs = amdfSpec lag size zero xs := by
+  unfold amdfSpecRec amdfSpec
+  exact mavgSpecRec_eq_spec size hs zero _
+
+/-- **C20.8d** zcross: the recursion over the current sign is the closed characterisation (any
+hysteresis, any first_sign). -/
+theorem zcrossSpecRec_eq_spec (h fs : K) (xs : List K) :
+    zcrossSpecRec h fs xs = zcrossSpec h fs xs :=
+  (zcrossSpec_eq_from h fs xs).symm
+
+/-- **C20.8e** unwrap: the recursion over the accumulated correction is the closed form (any
+`fl`, `max_delta`, `step`). -/
+theorem unwrapSpecRec_eq_spec (fl : K → K) (md step : K) (xs : List K) :
+    unwrapSpecRec fl md step xs = unwrapSpec fl md step xs :=
+  unwrapSpecRec_eq fl md step xs
+
+end recursions
+
 /-! ### the terms the driver runs
 
 `ALV.C20.R.*` are the `Rat` instances of the models and specs, elaborated in the Mathlib-free
@@ -333,6 +372,16 @@ theorem rat_unwrap (md step : Rat) (hs : 0 < step) (xs : List Rat) :
   ⟨unwrap_eq_spec R.fl ratFloor_isFloor md step hs xs,
    unwrap_adjacent_jump R.fl ratFloor_isFloor md step hs xs⟩
 
+/-- the one-pass specifications the driver evaluates on long inputs are the closed forms -/
+theorem rat_spec_recursions (size lag : Nat) (hs : 0 < size) (zero h fs md step : Rat) (xs : List Rat) :
+    R.mavgSpecRec size zero xs = R.mavgSpec size zero xs ∧
+    R.accSpecRec xs = R.accSpec xs ∧
+    R.amdfSpecRec lag size zero xs = R.amdfSpec lag size zero xs ∧
+    R.zcrossSpecRec h fs xs = R.zcrossSpec h fs xs ∧
+    R.unwrapSpecRec md step xs = R.unwrapSpec md step xs :=
+  ⟨mavgSpecRec_eq_spec size hs zero xs, accSpecRec_eq_spec xs, amdfSpecRec_eq_spec lag size hs zero xs,
+   zcrossSpecRec_eq_spec h fs xs, unwrapSpecRec_eq_spec R.fl md step xs⟩
+
 end rat
 
 /-! ### non-vacuity -/
@@ -344,6 +393,9 @@ example : (0 : Rat) ≤ 1 ∧ zcross (1 : Rat) 0 [1/2, 2, -1/2, -3, 5] = [0, 0, 
 example : (0 : Rat) < 2 ∧
     R.unwrap 1 2 [1, 3/2, -2, 5/4, 7] = [1, 3/2, 2, 5/4, 1] := by
   decide +kernel
+example : (0 < 2) ∧ mavgSpecRec 2 (0 : Rat) [1, 3, 5] = [1/2, 2, 4] ∧ accSpecRec [(1 : Rat), 2, 3] = [1, 3, 6] ∧
+    zcrossSpecRec (1 : Rat) 0 [1/2, 2, -1/2, -3, 5] = [0, 0, 0, 1, 1] ∧
+    R.unwrapSpecRec 1 2 [1, 3/2, -2, 5/4, 7] = [1, 3/2, 2, 5/4, 1] := by decide +kernel
 example : AdjAll (fun a b : Rat => ¬ |b - a| > 1) [0, 1, 1/2] := by
   simp only [AdjAll]; norm_num
 
